@@ -12,6 +12,7 @@ V: the driver builds the concrete description (carrier families rotate; thorough
    gets and records stage and class of the first exception or "result"; spec/Trace_C18.tla compares
    with WellFormed / Stage and asserts that the judged set is exactly the enumerated set.
 """
+import signal
 import warnings
 
 import numpy as np
@@ -136,7 +137,7 @@ def fit_args(case, data):
     elif dk == "TooManyCols":
         d = data[:, :n + 1]
     elif dk == "Ndim3":
-        d = data[:, None, :n]            # shape (300, 1, n): the last axis has the model's dimension
+        d = data[:, :n].reshape(150, 2, n)     # 3-D, but the last axis has the model's dimension
     else:
         d = data[:, 0]
     fk, pos = case["fit"]["kind"], case["fit"]["pos"]
@@ -225,6 +226,27 @@ def compute(vc, case, model, data):
     raise Machinery(f"unknown operation {kind}")
 
 
+class NotRejectedInTime(BaseException):
+    """a call that neither raised nor returned within the time limit: the input was not rejected where it
+    was supplied (a rejection is immediate); older code e.g. integrates a cdf over surplus columns for minutes"""
+
+
+TIME_LIMIT = 2.0      # operations (a rejection is immediate; valid operations that take longer count as computed)
+FIT_LIMIT = 30.0
+
+
+def limited(fn, limit=None):
+    def on_alarm(signum, frame):
+        raise NotRejectedInTime()
+    old = signal.signal(signal.SIGALRM, on_alarm)
+    signal.setitimer(signal.ITIMER_REAL, limit or TIME_LIMIT)
+    try:
+        return fn()
+    finally:
+        signal.setitimer(signal.ITIMER_REAL, 0)
+        signal.signal(signal.SIGALRM, old)
+
+
 def cls_name(e):
     for base in DOCUMENTED:
         if isinstance(e, base):
@@ -277,15 +299,21 @@ class Runner:
                 try:
                     if fitted:
                         d, fd = fit_args(case, self.data)
-                        model.fit(d, fd)
+                        limited(lambda: model.fit(d, fd), FIT_LIMIT)
+                except NotRejectedInTime:
+                    rec["msg"] = f"fit neither raised nor returned within {FIT_LIMIT} s"
+                    return rec                      # stage 5 / "result": computed, not rejected
                 except Exception as e:  # noqa
                     return fail(3, e)
                 if stages_ok:
                     self.cache[key] = model
             try:
-                res = compute(vc, case, model, self.data)
+                res = limited(lambda: compute(vc, case, model, self.data))
                 if res is None:
                     raise Machinery("operation returned None")
+            except NotRejectedInTime:
+                rec["msg"] = f"operation neither raised nor returned within {TIME_LIMIT} s"
+                return rec
             except Machinery:
                 raise
             except Exception as e:  # noqa
@@ -335,6 +363,8 @@ def run(ctx):
     ctx.assumptions = ["stage order: slicers/description/constructor (1), IntervalSlicer.slice_ on the column of its "
                        "dimension (2), GlobalHierarchicalModel.fit on a 300-row table (3), contour / pdf / cdf (4)",
                        "'conditional_on': None is only enumerated together with 'parameters'",
+                       f"a fit or operation that neither raises nor returns within {TIME_LIMIT:g} s counts as computed "
+                       "(not rejected)",
                        "an exception counts as a rejection only if it is a ValueError, TypeError, RuntimeError or "
                        "NotImplementedError (the documented classes), not an accidental KeyError/IndexError"]
     # ---- M
